@@ -42,8 +42,9 @@ MODELLED = ("the reads / writes of parse, CFModel.resolve, resolver.resolve_sub,
 TRUSTED_EXTRA = ["os.fork (pristine replay process), threading, copy.deepcopy, json canonicalisation of snapshots"]
 
 QUERIES = ["policy_documents", "all_statement_conditions", "allowed_actions", "iam_actions", "allowed_principals_with",
-           "non_whitelisted", "filtered_by_type"]
-CHEAP_QUERIES = ["policy_documents", "all_statement_conditions", "allowed_principals_with", "non_whitelisted", "filtered_by_type"]
+           "non_whitelisted", "filtered_by_type", "statement_lists"]
+CHEAP_QUERIES = ["policy_documents", "all_statement_conditions", "allowed_principals_with", "non_whitelisted", "filtered_by_type",
+                 "statement_lists", "statement_lists"]
 PATTERNS = ["^arn:", ".*", "root$", "^$"]
 GLOBAL_NAMES = ("CFModel.PSEUDO_PARAMETERS", "CLOUDFORMATION_ACTIONS", "GenericResource._strict", "Parameter.NO_ECHO_*")
 OPS = ("parse", "resolve", "expand", "query", "cond", "expr")
@@ -180,6 +181,18 @@ def do_query(q, m, arg, wl):
         return [[rid, _try(lambda: pd.policy_document.non_whitelisted_allowed_principals(wl))] for rid, pd in docs_of(m)]
     if q == "filtered_by_type":
         return m.resources_filtered_by_type(wl)
+    if q == "statement_lists":
+        # the statement-level getters hand out lists assembled from the model's own members (Action + NotAction, Resource +
+        # NotResource, Principal + NotPrincipal): asking must not grow those members (seeded change C06-r4m1 returned the model's
+        # own Action list and appended the NotAction entries to it, so every query lengthened the statement)
+        pat = re.compile(PATTERNS[arg % len(PATTERNS)])
+        out = []
+        for rid, pd in docs_of(m):
+            for st in pd.policy_document.statement_as_list():
+                out.append([rid, _try(st.get_action_list), _try(st.get_resource_list), _try(st.get_principal_list),
+                            _try(lambda: st.actions_with(pat)), _try(lambda: st.resources_with(pat)), _try(lambda: st.principals_with(pat))])
+            out.append([rid, _try(lambda: [x.Sid for x in pd.policy_document.statements_with(pat)])])
+        return out
     raise Skip()
 
 
@@ -811,6 +824,16 @@ SURFACES = {HIST.name: HIST}
 # generators
 
 HAND_TEMPLATES = [
+    # every pairing a statement allows: Action next to NotAction, Resource next to NotResource, Principal next to NotPrincipal, each
+    # as a list (the getters concatenate the two: they must build a NEW list)
+    {"Resources": {
+        "Q": {"Type": "AWS::SQS::QueuePolicy", "Properties": {"Queues": ["q"], "PolicyDocument": {"Version": "2012-10-17", "Statement": [
+            {"Sid": "both", "Effect": "Allow", "Action": ["sqs:SendMessage", "sqs:Get*"], "NotAction": ["iam:*"],
+             "Resource": ["arn:aws:sqs:eu-west-1:123456789012:q"], "NotResource": ["arn:aws:sqs:*:*:other", "x"],
+             "Principal": ["arn:aws:iam::123456789012:root"], "NotPrincipal": {"AWS": ["arn:aws:iam::999999999999:root"]}},
+            {"Sid": "deny", "Effect": "Deny", "Action": ["sqs:*"], "NotAction": "sqs:ReceiveMessage", "Resource": "*", "Principal": "*"}]}}},
+        "G": {"Type": "Custom::Thing", "Properties": {"Doc": {"Statement": [
+            {"Effect": "Allow", "Action": ["s3:GetObject"], "NotAction": ["s3:Put*", "s3:Delete*"], "Resource": ["a"], "NotResource": ["b"]}]}}}}},
     {"Parameters": {"S": {"Type": "String"}, "L": {"Type": "CommaDelimitedList", "Default": "a,b"},
                     "Secret": {"Type": "String", "NoEcho": True}, "N": {"Type": "Number", "Default": 3}},
      "Conditions": {"IsProd": {"Fn::Equals": [{"Ref": "S"}, "prod"]}, "NotProd": {"Fn::Not": [{"Condition": "IsProd"}]}},
